@@ -258,13 +258,6 @@ func runC27(r *Report) {
 	p := r.P
 	hp := r.FnAnchor("R27a", "rueidis.(*pipe).handlePush")
 	if hp != nil {
-		isNilTest := func(g Guard) (bool, bool) {
-			c, ok := g.Cond.(*ssa.Call)
-			if !ok || CalleeName(c) != "rueidis.(*RedisMessage).IsNil" {
-				return false, false
-			}
-			return g.Pol, true
-		}
 		n := 0
 		for _, s := range Sites(hp, func(in ssa.Instruction) bool {
 			c, ok := in.(*ssa.Call)
@@ -279,14 +272,7 @@ func runC27(r *Report) {
 			n++
 			args := s.Call().Common().Args
 			arg := args[len(args)-1]
-			want := IsNilConst(arg)
-			okArg := want
-			if !want {
-				c, isc := arg.(*ssa.Call)
-				okArg = isc && CalleeName(c) == "rueidis.(*RedisMessage).values"
-			}
-			okG := Guarded(s.Block, func(g Guard) bool { pol, is := isNilTest(g); return is && pol == want })
-			r.ObSite("R27a", s, "sink-gets-nil-iff-null-keylist", okArg && okG, "each invalidation sink receives nil exactly for a null key list (flush) and otherwise the pushed key list values[1].values()")
+			r.ObSite("R27a", s, "sink-gets-nil-iff-null-keylist", pushedKeyListArg(arg, s.Block), "each invalidation sink receives nil exactly for a null key list (flush) and otherwise the pushed key list values[1].values()")
 			// only its own presence test and the frame shape guard it
 			foreign := false
 			for _, conj := range [][]Guard{DomGuards(s.Block)} {
@@ -306,7 +292,7 @@ func runC27(r *Report) {
 			}
 			r.ObSite("R27a", s, "sink-independent-of-other-sinks", !foreign, "a sink is called under the presence test of that sink only (the store, the option callback and the hook callback do not shadow each other)")
 		}
-		r.Anchor("R27a", "invalidation sinks in handlePush", n == 6)
+		r.Anchor("R27a", "invalidation sinks in handlePush (3 sinks, written per arm or once)", n == 6 || n == 3)
 	}
 	// R27d
 	if rd := r.FnAnchor("R27d", "rueidis.(*pipe)._backgroundRead"); rd != nil {
@@ -330,7 +316,7 @@ func runC27(r *Report) {
 		if len(starts) == 1 {
 			for _, suffix := range []string{".onInvalidations", ".hooks.onInvalidations"} {
 				suffix := suffix
-				ok := MustPassOrEdge(starts[0], func(in ssa.Instruction) bool {
+				ok := MustPassOrEdge(starts[0], DeepHit(bg, func(in ssa.Instruction) bool {
 					c, ok := in.(*ssa.Call)
 					if !ok || c.Call.StaticCallee() != nil || c.Call.IsInvoke() || len(c.Call.Args) != 1 || !IsNilConst(c.Call.Args[0]) {
 						return false
@@ -340,7 +326,7 @@ func runC27(r *Report) {
 						return strings.HasSuffix(d, suffix) && !strings.HasSuffix(d, ".hooks.onInvalidations")
 					}
 					return strings.HasSuffix(d, suffix)
-				}, NilTestEdge(suffix))
+				}, NilTestEdge(suffix)), NilTestEdge(suffix))
 				r.ObSite("R27b", starts[0], "teardown-notifies"+suffix, ok, "when the connection is lost the callback is invoked once more with nil")
 			}
 		}
